@@ -390,6 +390,33 @@ def program(rng, **kw):
                 globals_.append(("uniform", "g%d" % b, wrap, b))
                 used_by_global.append(wrap)
             b += 1
+    # a vertex input struct with exactly the members of the fragment OUTPUT struct (same names, types, locations):
+    # identity is by name, not by shape
+    vlike = None
+    if fout is not None and nentry >= 1 and rng.random() < 0.5:
+        vlike = Ty("struct", name="LikeFOut", members=[("c0", Ty("vec", n=4, s="f32")), ("c1", Ty("vec", n=4, s="f32"))], has_rts=False)
+        io_lines.append("struct LikeFOut {\n  @location(0) c0: vec4<f32>,\n  @location(1) c1: vec4<f32>,\n}")
+    # a buffer-only struct (never an entry point parameter) that has a @builtin member: builtins are skipped in Rust
+    bonly = None
+    if rng.random() < 0.2:
+        bonly = Ty("struct", name="BufOnly", members=[("index", Ty("scalar", s="u32")), ("pos", Ty("vec", n=4, s="f32")), ("w", Ty("scalar", s="f32"))],
+                   has_rts=False, builtins={"index"})
+        io_lines.append("struct BufOnly {\n  @builtin(vertex_index) index: u32,\n  pos: vec4<f32>,\n  w: f32,\n}")
+        globals_.append(("storage_ro", "g%d" % b, Ty("array", elem=bonly, n=2), b))
+        used_by_global.append(bonly)
+        b += 1
+    # two host structs whose names are equal up to the case style (light_data / LightData), with different members
+    styled = []
+    if rng.random() < 0.15:
+        sa = Ty("struct", name="light_data", members=[("color", Ty("vec", n=4, s="f32")), ("range", Ty("scalar", s="f32"))], has_rts=False)
+        sb = Ty("struct", name="LightData", members=[("m", Ty("mat", c=4, r=4, s="f32")), ("flags", Ty("scalar", s="u32")), ("dir", Ty("vec", n=4, s="f32"))], has_rts=False)
+        styled = [sa, sb]
+        io_lines.append("struct light_data {\n  color: vec4<f32>,\n  range: f32,\n}")
+        io_lines.append("struct LightData {\n  m: mat4x4<f32>,\n  flags: u32,\n  dir: vec4<f32>,\n}")
+        for t_ in styled:
+            globals_.append(("uniform", "g%d" % b, t_, b))
+            used_by_global.append(t_)
+            b += 1
     # unused + function-local structs
     extra = []
     if rng.random() < 0.4:
@@ -422,6 +449,11 @@ def program(rng, **kw):
             params.append("both: Both")
         if ids_struct is not None:
             params.insert(rng.randrange(len(params) + 1), "ids: DrawIds")
+        if vlike is not None and shared_host_vertex is None and not vin:
+            params.append("like: LikeFOut")
+        else:
+            vlike_unused = vlike
+            vlike = None
         ret = "Inter" if inter else "@builtin(position) vec4<f32>"
         retv = "var o: Inter; return o;" if inter else "return vec4<f32>(0.0);"
         lines.append("@vertex fn vs_main(%s) -> %s { %s %s }" % (", ".join(params), ret, body_local, retv))
@@ -454,6 +486,10 @@ def program(rng, **kw):
         all_structs["Both"] = shared_host_vertex
     if ids_struct:
         all_structs["DrawIds"] = ids_struct
+    if bonly:
+        all_structs["BufOnly"] = bonly
+    for t_ in styled:
+        all_structs[t_.name] = t_
     emitted = set(host)
     if nentry >= 1:
         emitted |= {s.name for s in vin}
@@ -461,13 +497,17 @@ def program(rng, **kw):
             emitted.add("Both")
         if ids_struct:
             emitted.add("DrawIds")
+        if vlike is not None:
+            all_structs["LikeFOut"] = vlike
+            emitted.add("LikeFOut")
     # Inter: entry argument of fs_main but also the result of vs_main -> not emitted; FOut: result only
     for s in grid_structs:
         all_structs[s.name] = s
     order = [s.name for s in host_structs] + ([rts_struct.name] if rts_struct else []) + [s.name for s in grid_structs] \
         + [s.name for s in vin] \
         + (["Inter"] if inter else []) + (["DrawIds"] if ids_struct else []) + (["Both"] if shared_host_vertex else []) + (["FOut"] if fout else []) \
-        + (["WrapsOut"] if "WrapsOut" in host else [])
+        + (["WrapsOut"] if "WrapsOut" in host else []) \
+        + (["LikeFOut"] if vlike is not None else []) + (["BufOnly"] if bonly else []) + [t_.name for t_ in styled]
     if fout:
         all_structs["FOut"] = fout
     if "WrapsOut" in host:
